@@ -123,6 +123,23 @@ def job(j):
     # the untouched environment after all reforms: no leakage between handles
     attempt("same", {"kind": "baseline-again", "id": ""})
     out = tr.judge()
+    # ---- a FRESH environment: its first use is the baseline; using it again, and using a deep copy taken after the first
+    #      use (what a reform script does), must reproduce that baseline -- the empty reform changes nothing
+    try:
+        p0, f0 = gs.fresh_env(date)
+        first = gs.compute(df, date, params=p0, functions=f0, targets=cols)
+        tr2 = runs.RunTrace(work, f"c06f_{tid}")
+        tid2 = tid + 1_000_000
+        tr2.base(tid2, first, list(first.columns), dag)
+        for kk, (kind, pp) in enumerate((("fresh-environment-second-use", p0), ("deepcopy-after-first-use", copy.deepcopy(p0))), start=900):
+            res = gs.compute(df, date, params=pp, functions=f0, targets=cols)
+            tr2.run(tid2, kk, "same", res, list(res.columns), kind=kind, id="")
+            info["runs"].append({"run": kk, "rel": "same", "kind": kind, "id": ""})
+        o2 = tr2.judge()
+        out["bad"] = list(out["bad"]) + [{**b, "tid": tid} for b in o2["bad"]]
+        out["tlc_states"] += o2["tlc_states"]
+    except Exception as e:  # noqa: BLE001
+        info["errors"].append({"run": 900, "kind": "fresh-environment", "id": "", "error": f"{type(e).__name__}: {str(e)[:120]}"})
     info["bad"] = out["bad"]
     info["changed"] = out["stats"]["changed"]
     info["tlc_states"] = out["tlc_states"]
@@ -213,6 +230,7 @@ def run(tier):
     from c04 import dates_for
 
     dates = dates_for(rnd, quick, 1, lo="2009-01-01", nreg=1)     # incl. a regime date (thorough: all) so that dated rule versions take part
+    dates.insert(1, "2002-01-01")                                 # a rounding specification with an offset is only in force 2001-2003
     groups = list(INTERNAL_PARAMS_GROUPS)
     jobs = []
     t = 0
